@@ -28,6 +28,16 @@ def add_tricky_links(t, rng):
     t.add_link("/surplus.txt", deep)
     # link with the same extension as its target, different name
     t.add_link("/alias.txt", "g.txt")
+    # root-level names that merely BEGIN with the name of a built-in page (the built-in controllers run first)
+    for name in ("/style.css.map", "/script.json", "/script.js.map", "/favicon.svgz", "/index.html.bak", "/style.cssx", "/favicon.svg.png"):
+        mk = treegen.marker("MK", "near-builtin", name)
+        t.add_file(name, mk + b" near-builtin " + name.encode() + b"\n" + b"n" * 40)
+        t.markers[mk] = name
+    for d in sorted(t.dirs)[:2]:
+        for name in ("style.css", "script.js", "favicon.svg"):
+            mk = treegen.marker("MK", "sub-builtin", d, name)
+            t.add_file(d + "/" + name, mk + b" a file that shares a built-in page's name, in a subdirectory\n")
+            t.markers[mk] = d + "/" + name
 
 
 def near_misses(t, rng, path):
@@ -68,13 +78,14 @@ def request_paths(t, rng):
         paths += near_misses(t, rng, p)
     for p in rng.sample(base, min(len(base), 12)):
         paths += [p + "?x=1", p + "#f", p + "?x=1&y=2#f"]
+    paths += ["/style.css.bak", "/script.jstypo", "/favicon.svg2", "/style.css/", "/script.js/x", "/index.htmlx", "/favicon.svg.missing"]
     # query strings and fragments do not affect the lookup - whatever they contain
     for p in rng.sample(base, min(len(base), 10)):
         paths += [p + q for q in ("?return=/docs/../a.txt", "?dir=docs/..", "#/../top", "?a=..", "?next=../index", "?p=/..", "?x=%2e%2e/", "?a=b?c=d", "#a#b", "?", "#", "?/", "?x=/" + "a" * 200,
                                    "?" + p, "?path=" + p + ".html", "?index.html", "#index.html")]
     seen, out = set(), []
     for p in paths:
-        if p in seen or p in BUILTIN or p.split("?")[0].split("#")[0] in BUILTIN or any(p.startswith(r) for r in RESERVED_PATHS) or " " in p:
+        if p in seen or p in BUILTIN or p.split("?")[0].split("#")[0] in BUILTIN or (p.split("?")[0].split("#")[0].rstrip("/") in BUILTIN and p != "/") or any(p.startswith(r) for r in RESERVED_PATHS) or " " in p:
             continue
         # the undocumented corner: directory X without index + sibling X.html
         seen.add(p)
@@ -266,6 +277,7 @@ def judge(c, t, p, branch, sel, amb, res, entry, ext_types):
                 names = [n for n in os.listdir(t.root + bare) if len(n) > 3]
             except OSError:
                 names = []
-            hits = [n for n in names if n.encode("utf-8") in r.body]
+            # names the 404 page itself mentions (its own stylesheet / icon links) prove nothing
+            hits = [n for n in names if n.encode("utf-8") in r.body and n not in ("style.css", "script.js", "favicon.svg", "index.html", "404.html")]
             if len(hits) >= 2:
                 c.violation("C02:404-body:directory-listing", "404 for directory %r lists %r" % (p, hits[:4]), rp)
